@@ -75,29 +75,35 @@ def threshold_chain(ctx):
                 thr_store = n.value
     if floor_expr is None:
         raise AnalysisError("Solver.__init__ no longer derives self.floor")
-    env = {"threshold": T}
-    # the formula may live in a helper of the solver (`self.precision_digits(threshold)`, a static method): its single return
-    # expression with the arguments in place
-    for _ in range(2):
-        if isinstance(floor_expr, ast.Call) and isinstance(floor_expr.func, ast.Attribute) and isinstance(floor_expr.func.value, ast.Name) \
-                and floor_expr.func.value.id in ("self", init.cls.name if init.cls else "") and init.cls is not None:
-            h = prog.resolve_method(init.cls.name, floor_expr.func.attr)
-            body = [st for st in h.node.body if not (isinstance(st, ast.Expr) and isinstance(st.value, ast.Constant))] if h is not None else []
-            if len(body) == 1 and isinstance(body[0], ast.Return) and body[0].value is not None:
+    floor_expr0 = floor_expr
+
+    def digits_for(tv):
+        """self.floor for the threshold value tv: the expression folded with the constructor's parameter in place; a formula that
+        lives in a straight-line helper of the solver (`self.precision_digits(threshold)`, a static method, a module function) is
+        followed into it."""
+        fe, env_ = floor_expr0, {"threshold": tv}
+        if isinstance(fe, ast.Call) and isinstance(fe.func, ast.Attribute) and isinstance(fe.func.value, ast.Name) \
+                and fe.func.value.id in ("self", "cls", init.cls.name if init.cls else "") and init.cls is not None:
+            h = prog.resolve_method(init.cls.name, fe.func.attr)
+            if h is not None and not fe.keywords:
                 hp = [p_ for p_ in h.params if p_ not in ("self", "cls")]
-                if len(hp) == len(floor_expr.args) and not floor_expr.keywords:
-                    try:
-                        env = {p_: prog.const_eval(a_, init.mod, env=env) for p_, a_ in zip(hp, floor_expr.args)}
-                    except NotConst:
-                        break
-                    floor_expr = body[0].value
-                    continue
-        break
+                if len(hp) == len(fe.args):
+                    env2 = {p_: prog.const_eval(a_, init.mod, env=env_) for p_, a_ in zip(hp, fe.args)}
+                    return prog.eval_straightline(h, env2)
+        return prog.const_eval(fe, init.mod, env=env_)
     try:
-        d = prog.const_eval(floor_expr, init.mod, env=env)
+        d = digits_for(T)
     except NotConst as e:
         raise AnalysisError("self.floor expression `%s` does not fold: %s" % (src(floor_expr), e))
-    out = dict(T=T, d=d, configurable=configurable, floor_src=src(floor_expr), thr_src=src(targ), thr_store=src(thr_store) if thr_store is not None else None,
+    # the same derivation for other thresholds a caller may construct the solver with (the property holds whatever the solver's
+    # threshold is): a formula that agrees with the specification at the default only is found here
+    others = {}
+    for tv in (1e-6, 1e-3, 5e-4, 4e-5, 2e-6, 0.5, 1e-9, 3e-2):
+        try:
+            others[tv] = digits_for(tv)
+        except NotConst:
+            others[tv] = None
+    out = dict(T=T, d=d, others=others, configurable=configurable, floor_src=src(floor_expr), thr_src=src(targ), thr_store=src(thr_store) if thr_store is not None else None,
                floor_uses_threshold=any(isinstance(x, ast.Name) and x.id == "threshold" for x in ast.walk(floor_expr)),
                where=init.where(), ctor_where=solve.where(ctor))
     ctx.cache["threshold_chain"] = out
@@ -191,8 +197,17 @@ def r2_precision(ctx, chk, rule="C04.2"):
                       expected="threshold/10 < 10^-d <= threshold", found="d=%d from `%s`" % (d, tc["floor_src"]),
                       construct="Solver.__init__ floor mismatch")
     else:
-        chk.ok(rule, tc["where"], "threshold %g (from `%s` at %s) -> self.floor = %s = %d; 10^-%d matches the threshold" % (
-            T, tc["thr_src"], tc["ctor_where"], tc["floor_src"], d, d))
+        def _fits(tv, dv):
+            return isinstance(dv, int) and not isinstance(dv, bool) and dv >= 1 and 10.0 ** -dv <= tv * (1 + 1e-9) and 10.0 ** -dv > (tv / 10) * (1 + 1e-9)
+        bad = [(tv, dv) for tv, dv in sorted(tc.get("others", {}).items()) if dv is not None and not _fits(tv, dv)]
+        if bad:
+            tv, dv = bad[0]
+            chk.violation(rule, tc["where"], "self.floor = %s matches the default threshold but gives %r digits for a solver constructed with threshold %g (10^-d must lie in "
+                          "(threshold/10, threshold]): values that differ by more than the threshold are rounded together, or equal values apart" % (tc["floor_src"], dv, tv),
+                          expected="threshold/10 < 10^-d <= threshold for every threshold", found="d=%r for threshold %g" % (dv, tv), construct="Solver.__init__ floor formula")
+        else:
+            chk.ok(rule, tc["where"], "threshold %g (from `%s` at %s) -> self.floor = %s = %d; 10^-%d matches the threshold (and the formula does for %d other thresholds)" % (
+                T, tc["thr_src"], tc["ctor_where"], tc["floor_src"], d, d, sum(1 for v in tc.get("others", {}).values() if v is not None)))
     if tc["thr_store"] != "threshold":
         chk.violation(rule, tc["where"], "self.threshold is `%s`, not the constructor's threshold" % tc["thr_store"],
                       expected="self.threshold = threshold", found=tc["thr_store"], construct="Solver.__init__ threshold store")
@@ -212,6 +227,38 @@ def r2_precision(ctx, chk, rule="C04.2"):
         _call_sites_pass_floor(ctx, chk, rule, q, ("get_best_strategies_reachability", "get_worst_strategies_reachability"))
 
 
+def _through_locals(f, text, depth=0):
+    """Source text of an argument with plain local names replaced by what they were assigned (once) in f; None when a name is
+    assigned more than once or from something that is not an expression of self's fields / constants."""
+    try:
+        e = ast.parse(text, mode="eval").body
+    except SyntaxError:
+        return None
+    if not isinstance(e, ast.Name) or depth > 4:
+        return text
+    vals = []
+    for n in walk_no_nested_defs(f.node):
+        if isinstance(n, ast.Assign):
+            for t in n.targets:
+                if isinstance(t, ast.Name) and t.id == e.id:
+                    vals.append(n.value)
+                elif isinstance(t, (ast.Tuple, ast.List)) and isinstance(n.value, (ast.Tuple, ast.List)) and len(t.elts) == len(n.value.elts):
+                    for a, b in zip(t.elts, n.value.elts):
+                        if isinstance(a, ast.Name) and a.id == e.id:
+                            vals.append(b)
+                elif any(isinstance(x, ast.Name) and x.id == e.id for x in ast.walk(t)):
+                    vals.append(None)
+        elif isinstance(n, (ast.AugAssign, ast.AnnAssign, ast.For, ast.comprehension, ast.NamedExpr, ast.withitem)):
+            tgt = getattr(n, "target", None) or getattr(n, "optional_vars", None)
+            if tgt is not None and any(isinstance(x, ast.Name) and x.id == e.id for x in ast.walk(tgt)):
+                vals.append(None)
+    if e.id in f.params:
+        return None
+    if len(vals) != 1 or vals[0] is None:
+        return None
+    return _through_locals(f, src(vals[0]), depth + 1)
+
+
 def _call_sites_pass_floor(ctx, chk, rule, q, meths):
     f = ctx.func(q)
     n = 0
@@ -223,8 +270,12 @@ def _call_sites_pass_floor(ctx, chk, rule, q, meths):
             ps = [p for p in callee[0].params if p != "self"] if callee else ["state_list", "floor"]
             amap = dict(zip(ps, [src(a) for a in c.args]))
             amap.update({k.arg: src(k.value) for k in c.keywords})
-            if amap.get(ps[1]) == "self.floor" and amap.get(ps[0]) == "self." + shared.solver_names(ctx)["field"]:
+            amap = {k_: _through_locals(f, v_) for k_, v_ in amap.items()}
+            want = {ps[1]: "self.floor", ps[0]: "self." + shared.solver_names(ctx)["field"]}
+            if all(amap.get(k_) == v_ for k_, v_ in want.items()):
                 chk.ok(rule, f.where(c), "%s(self.%s, self.floor)" % (c.func.attr, shared.solver_names(ctx)["field"]))
+            elif any(amap.get(k_) is None for k_ in want):
+                chk.undecided(rule, f.where(c), "%s is called with (%s): where the precision / state list argument comes from is not resolved" % (c.func.attr, ", ".join(args)))
             else:
                 chk.violation(rule, f.where(c), "%s is called with (%s)" % (c.func.attr, ", ".join(args)),
                               expected="(self.state_list, self.floor)", found=", ".join(args),
@@ -521,6 +572,10 @@ def run(ctx, chk):
     from . import C12 as _C12
     _C12.observe(ctx, chk, "C04.obs", ['reachability_strategies'])
     from . import C01
+    # the property speaks of every solve: nothing computed by one solve (a memo on the game object, on a class, in a module)
+    # may be handed to the next one - a second solve of the same object, or of another game, would report stale values
+    from . import C10 as _C10
+    _C10.r2_no_carried_state(ctx, chk, "C04.pre:C10.2")
     r1_argsets(ctx, chk)
     r2_precision(ctx, chk)
     r3_roles(ctx, chk)
